@@ -233,7 +233,7 @@ func (om *OrderedMap[K, V]) ForAllKeys(predicate func(key K) bool) bool {
 // predicate is true for any of them
 func (om *OrderedMap[K, V]) ForAnyKey(predicate func(key K) bool) bool {
 	if om.pairs == nil {
-		return true
+		return false
 	}
 
 	for pair := om.Oldest(); pair != nil; pair = pair.Next() {
